@@ -23,7 +23,7 @@ PROP = "C18"
 
 EVIDENCE = {
     "rule": "one evaluation = one simulated operation sequence (evaluate / extract / evaluate with seeded ARPACK start vectors, optional solver fault, optional rigidly moved twin) on one generated model; non-trivial = at least one eigen-solve returned pairs that were checked; distinct = distinct (mesh family, field kind, material, boundary kind, requested modes, operation sequence, start-vector seeds)",
-    "probes_expected": ["eigenpairs-checked", "start-vectors-compared", "dense-reference-compared", "mode-shape-checked", "rigid-modes-counted", "rigid-twin-compared", "fault:eigsh", "inplace-extract-then-evaluate", "mixed-container", "operator-checked", "density-changed-between-evaluations"],
+    "probes_expected": ["eigenpairs-checked", "start-vectors-compared", "dense-reference-compared", "mode-shape-checked", "rigid-modes-counted", "rigid-twin-compared", "fault:eigsh", "inplace-extract-then-evaluate", "mixed-container", "operator-checked", "density-changed-between-evaluations", "boundaries-changed-between-evaluations"],
     "components": {
         "real": ["felupe FreeVibration / SolidBody / assembly / dof.partition", "scipy ARPACK (eigsh, shift-invert with SuperLU)"],
         "simulated": ["ARPACK start vector (seeded, instead of OS entropy)", "eigen-solver fault layer", "operation history on the shared field"],
@@ -79,6 +79,11 @@ def generate(seed, tier, k):
     nops = r.choice([2, 3, 4, 5])
     for i in range(nops):
         if i > 0 and r.random() < 0.15:
+            # study of the supports on the same analysis object: an entry of the boundary
+            # dictionary is added, removed, or the dictionary is replaced
+            lst = [{"name": "fix", "fx": "min", "value": 0.0}, {"name": "right", "fx": "max", "value": 0.0}, {"name": "top", "fy": "max", "skip": [True, False] + ([True] if dim == 3 else []), "value": 0.0}]
+            ops.append({"op": "bc", "how": r.choice(["update", "update", "replace"]), "list": r.sample(lst, r.choice([1, 2, 2, 3]))})
+        elif i > 0 and r.random() < 0.15:
             # parameter study on the same analysis object: the density of an item is changed
             ops.append({"op": "density", "item": r.randrange(len(doc["items"])), "factor": r.choice([0.25, 2.0, 4.0])})
         elif i == 0 or r.random() < 0.6:
@@ -187,6 +192,7 @@ def run(doc, log):
     doc0 = doc
     w = build(doc)
     job = fem.FreeVibration(w.items, w.boundaries)
+    bounds0 = dict(w.boundaries)
     sim = SimEigsh(log, doc.get("fault"))
     K, M, dof1 = independent_operators(doc, w)
     if len(dof1) < 12:
@@ -286,9 +292,25 @@ def run(doc, log):
                     raise Violation(PROP, "rigid-modes", f"unconstrained body has {nrig} zero-frequency modes among the {nk} returned, expected {want} (|lambda| <= 1e-8 lambda_max)", site=f"FreeVibration.evaluate[{cls}]")
                 log.count("rigid-modes-counted")
             regular_first = regular_first if spectra else (not mass_singular and not k_singular)
-            spectra.append((k, np.sort(vals), nk, adigest(np.concatenate([f.values.ravel() for f in w.field.fields] + [np.array([i["density"] for i in doc["items"]])])), cls))
+            spectra.append((k, np.sort(vals), nk, adigest(np.concatenate([f.values.ravel() for f in w.field.fields] + [np.array([i["density"] for i in doc["items"]])])) + repr(doc["bc"]), cls))
             evaluated = True
             sig.append(f"E{nk}")
+        elif op["op"] == "bc":
+            doc = copy.deepcopy(doc) if doc is doc0 else doc
+            doc["bc"] = {"case": "custom", "list": op["list"]}
+            newb = w._build_bc(doc["bc"])[0]  # on the job's own field (boundaries match fields by identity)
+            if op["how"] == "replace":
+                job.boundaries = dict(newb)
+            else:  # the caller's dictionary is edited in place
+                job.boundaries.clear()
+                job.boundaries.update(newb)
+            w.boundaries = job.boundaries
+            K, M, dof1 = independent_operators(doc, build_like(doc, w))
+            if len(dof1) < 12:
+                raise Discard("too-few-free-unknowns")
+            evaluated = False  # stored eigenvectors belong to the former supports
+            log.count("boundaries-changed-between-evaluations")
+            sig.append("B")
         elif op["op"] == "density":
             kitem = op["item"]
             doc = copy.deepcopy(doc) if doc is doc0 else doc
@@ -344,7 +366,7 @@ def run(doc, log):
         w2 = build(doc0, rigid=doc0["rigid"])
         # boundaries by the same point sets (coordinates moved), all components
         b2 = {}
-        for name, b in w.boundaries.items():
+        for name, b in bounds0.items():
             mask = np.zeros(w2.mesh.npoints, dtype=bool)
             mask[b.points] = True
             if b.mask.all(axis=1)[b.points].all():
